@@ -16,3 +16,31 @@ func TestReproRemoveChildKeepsParentValue(t *testing.T) {
 		t.Fatalf("Match(a) = %q, want [va]", out)
 	}
 }
+
+// finding #21 (C20): Match takes only the read lock but match() lazily
+// allocates n.Children on nodes rebuilt by Load: two concurrent Match calls
+// write the same field. Run with -race.
+func TestReproMatchWritesUnderReadLock(t *testing.T) {
+	src := NewTree()
+	src.Insert([]byte("a/b"), []byte("v"))
+	buf, err := src.Dump()
+	if err != nil {
+		t.Fatal(err)
+	}
+	tr := NewTree()
+	if err := tr.Load(buf); err != nil {
+		t.Fatal(err)
+	}
+	done := make(chan struct{})
+	for g := 0; g < 2; g++ {
+		go func() {
+			defer func() { done <- struct{}{} }()
+			for i := 0; i < 200; i++ {
+				out := [][]byte{}
+				tr.Match([]byte("a/b/c"), &out)
+			}
+		}()
+	}
+	<-done
+	<-done
+}
